@@ -54,6 +54,44 @@ pub fn e_handler(a: &[&str]) -> String {
     with_oracle(r.clone(), if again == r { Ok(()) } else { Err(format!("nondeterministic: {} vs {}", r, again)) })
 }
 
+/// one Encoder call on an existing encoder (ES)
+fn apply_call(e: &mut Encoder<ChunkSink>, m: &str, arg: &str) -> bool {
+    match m {
+        "u8" => e.u8(arg.parse().unwrap()).is_ok(), "u16" => e.u16(arg.parse().unwrap()).is_ok(),
+        "u32" => e.u32(arg.parse().unwrap()).is_ok(), "u64" => e.u64(arg.parse().unwrap()).is_ok(),
+        "i8" => e.i8(arg.parse().unwrap()).is_ok(), "i16" => e.i16(arg.parse().unwrap()).is_ok(),
+        "i32" => e.i32(arg.parse().unwrap()).is_ok(), "i64" => e.i64(arg.parse().unwrap()).is_ok(),
+        "int" => e.int(int_of_str(arg)).is_ok(), "simple" => e.simple(arg.parse().unwrap()).is_ok(),
+        "bool" => e.bool(arg == "true").is_ok(), "null" => e.null().is_ok(), "undefined" => e.undefined().is_ok(),
+        "char" => e.char(char::from_u32(arg.parse().unwrap()).unwrap()).is_ok(),
+        "f32" => e.f32(f32::from_bits(arg.parse().unwrap())).is_ok(), "f64" => e.f64(f64::from_bits(arg.parse().unwrap())).is_ok(),
+        "f16" => e.f16(f32::from_bits(arg.parse().unwrap())).is_ok(),
+        "tag" => e.tag(Tag::new(arg.parse().unwrap())).is_ok(), "array" => e.array(arg.parse().unwrap()).is_ok(), "map" => e.map(arg.parse().unwrap()).is_ok(),
+        "bytes" => e.bytes(&unhex(arg)).is_ok(), "str" => e.str(&String::from_utf8(unhex(arg)).unwrap()).is_ok(),
+        "begin_array" => e.begin_array().is_ok(), "begin_bytes" => e.begin_bytes().is_ok(), "begin_map" => e.begin_map().is_ok(),
+        "begin_str" => e.begin_str().is_ok(), "end" => e.end().is_ok(),
+        _ => false
+    }
+}
+
+/// ES <call;call;…> [=<expected hex>]: a sequence of Encoder calls on one encoder
+pub fn es_handler(a: &[&str]) -> String {
+    let mut e = Encoder::new(ChunkSink::default());
+    for c in a[0].split(';').filter(|c| !c.is_empty()) {
+        let (m, arg) = c.split_once(':').unwrap_or((c, ""));
+        if !apply_call(&mut e, m, arg) { return "err".into() }
+    }
+    let first = e.into_writer().show();
+    // determinism: the same calls again
+    let mut e2 = Encoder::new(ChunkSink::default());
+    for c in a[0].split(';').filter(|c| !c.is_empty()) {
+        let (m, arg) = c.split_once(':').unwrap_or((c, ""));
+        apply_call(&mut e2, m, arg);
+    }
+    let again = e2.into_writer().show();
+    with_oracle(first.clone(), if first == again { Ok(()) } else { Err("nondeterministic".into()) })
+}
+
 fn e_raw(a: &[&str]) -> String {
     // second evaluation for the determinism oracle (no recursion into the oracle)
     let m = a[0];
